@@ -73,7 +73,11 @@ class PlaceholderSubstitutor(CopyMapper):
 
     def __init__(self, substitutions: Mapping[str, Array]) -> None:
         # Ignoring function cache, since we don't support functions anyway
-        super().__init__()
+        #
+        # A binding may be a placeholder of the caller that is equal to (named
+        # like) the parameter placeholder it replaces; that is a legitimate
+        # result here, not a duplicate created by mistake.
+        super().__init__(err_on_created_duplicate=False)
         self.substitutions = substitutions
 
     def map_placeholder(self, expr: Placeholder) -> Array:
